@@ -68,6 +68,7 @@ CASES = [
     ('Frechet', [0, 1, 1], frechet), ('Frechet', [1, 0.5, 2], frechet), ('Frechet', [-3, 2, 0.5], frechet), ('Frechet', [0, 1, 20], frechet),
     ('Frechet', [0, Tm10, 1.5], frechet), ('Frechet', [0, T10, 3], frechet), ('Frechet', [1, 1, 100], frechet), ('Frechet', [0, 3, 0.75], frechet),
     ('Triangular', [0, 1, 0.5], triangular), ('Triangular', [0, 1, 0], triangular), ('Triangular', [-1, 3, 3], triangular), ('Triangular', [-2, 6, 0], triangular),
+    ('Weibull', [2, 1], weibull), ('Weibull', [0.5, 1], weibull), ('Pareto', [3, 1], pareto), ('Frechet', [0, 2, 1], frechet),
     ('Weibull', [3, 2], weibull), ('Weibull', [0.5, 3], weibull), ('Pareto', [3, 2], pareto), ('Pareto', [0.25, 3], pareto), ('Frechet', [1, 3, 2], frechet), ('Frechet', [0, 0.5, 3], frechet),
     ('Triangular', [0, 1, 0.125], triangular), ('Triangular', [-8, -4, -5], triangular), ('Triangular', [0, T10, 768], triangular), ('Triangular', [0, Tm10, Tm10 / 4], triangular),
 ]
